@@ -14,16 +14,19 @@
     every parser table.
   * rejection happens at compile time: `Search` evaluates nothing when
     `Compile` fails (`C04_rejection_precedes_evaluation`).
-  * COMPLETENESS: every sentence of the published grammar (`G false`, the
-    ABNF without the D24 extension) whose number tokens are in the int64 range
-    is accepted (`C04_grammatical_is_accepted`, and from bytes
-    `C04_grammatical_compiles`).  Proved in Proofs/GrammarComplete.lean by
-    induction on the derivation against a stack-of-pending-loops description
-    of the Pratt parser; no bound on size or nesting.  The side condition is
-    finding D22 (the grammar has no integer bound; `strconv.Atoi` has), and
-    `C04_number_range_is_needed` shows it cannot be dropped.
-    `C04_accepts_iff_modulo_findings` puts the two directions side by side:
-    strict sentences with in-range numbers ⊆ accepted ⊆ lenient sentences.
+  * EXACTNESS: `Spec.G true` is the language Compile accepts —
+    `C04_accepts_iff : (∃ ast, compile expr = ok ast) ↔ Sentence true (tokens of expr)`.
+    It differs from the published grammar `G false` in two marked places, both recorded
+    findings: the lenient production "a multi-select list directly after an open
+    projection" (D24) and the int64 range of the numbers in `[n]` and slices (D22).
+    Soundness: Proofs/Grammar.lean (induction over the relational description `R`, which is
+    sound and complete for the parser model); completeness: Proofs/GrammarComplete.lean
+    (induction over the ambiguous grammar's derivations against a stack-of-pending-loops
+    description of the Pratt parser; no bound on size or nesting).
+  * the PUBLISHED grammar: every sentence of `G false` with in-range numbers compiles
+    (`C04_grammatical_is_accepted`, `C04_grammatical_compiles`; `C04_published_sub_accepted`),
+    `C04_number_range_is_needed` shows the side condition cannot be dropped, and the
+    `example` below it shows the lenient production is really used.
   * the printer-based statements (`C04_printed_sentences_compile_partial`,
     `C04_written_sentences_compile_partial`) remain: they also say WHICH tree
     the accepted sentence denotes.
@@ -156,18 +159,35 @@ theorem C04_grammatical_compiles (expr : Bytes) (toks : List Token)
   rw [htok]
   exact hp
 
-/-- Both directions side by side.  The gap between them is exactly the two recorded findings:
-    `NumOK` (D22) on the left, the lenient production (D24) on the right. -/
-theorem C04_accepts_iff_modulo_findings (expr : Bytes) (toks : List Token)
+/-- **Compile accepts exactly the sentences of `G true`** — the published grammar plus the lenient
+    production (D24), with the numbers of `[n]` and slices in the int64 range (D22). -/
+theorem C04_accepts_iff (expr : Bytes) (toks : List Token)
     (htok : Lexer.tokenize Model.lexTables expr = .ok toks) :
-    ((Sentence N false toks ∧ NumOK toks) → ∃ ast : Node N, Api.compile Model.cfg expr = .ok ast) ∧
-    ((∃ ast : Node N, Api.compile Model.cfg expr = .ok ast) → Sentence N true toks) := by
-  refine ⟨fun h => C04_grammatical_compiles expr toks htok h.1 h.2, ?_⟩
-  rintro ⟨ast, h⟩
-  obtain ⟨toks', htok', hs⟩ := C04_compiled_is_grammatical expr ast h
-  rw [htok] at htok'
-  injection htok' with e
-  rw [e]; exact hs
+    (∃ ast : Node N, Api.compile Model.cfg expr = .ok ast) ↔ Sentence N true toks := by
+  constructor
+  · rintro ⟨ast, h⟩
+    obtain ⟨toks', htok', hs⟩ := C04_compiled_is_grammatical expr ast h
+    rw [htok] at htok'
+    injection htok' with e
+    rw [e]; exact hs
+  · intro hs
+    have hl := Lexer.tokenize_ok Model.lexTables lex_tables_safe expr
+    rw [htok] at hl
+    obtain ⟨ast, hp⟩ := sentence_parses_exact (N := N) hs hl
+    refine ⟨ast, ?_⟩
+    rw [Api.compile_eq_parseWith]
+    show parseWith Model.lexTables Generated.table expr = .ok ast
+    unfold parseWith
+    rw [htok]
+    show parseTokens Generated.table toks = .ok ast
+    rw [parseTokens_congr (sameDecisions_of_tableOK Generated.table Spec.table generated_table_ok spec_table_ok)]
+    exact hp
+
+/-- The published grammar with in-range numbers is a sub-language of the accepted one. -/
+theorem C04_published_sub_accepted (toks : List Token) (hs : Sentence N false toks) (hnum : NumOK toks) :
+    Sentence N true toks := by
+  obtain ⟨s, e, rfl, he, hg⟩ := hs
+  exact ⟨s, e, rfl, he, G_mono hg hnum.left⟩
 
 /-- The range condition cannot be dropped (finding D22): `[9223372036854775808]` is a sentence and is rejected. -/
 theorem C04_number_range_is_needed :
@@ -175,7 +195,7 @@ theorem C04_number_range_is_needed :
     let toks : List Token := [tk .lbracket, tk .number big, tk .rbracket, eofTok 0]
     Sentence Int false toks ∧ isOk (parseTokens (N := Int) Spec.table toks) = false := by
   refine ⟨⟨[tk .lbracket, tk .number _, tk .rbracket], eofTok 0, rfl, rfl, ?_⟩, by decide +kernel⟩
-  exact G.index0 (G.brNumber rfl rfl rfl)
+  exact G.index0 (G.brNumber rfl rfl rfl (fun h => by cases h))
 
 /-- Non-vacuity: a sentence that uses most productions meets the hypotheses of `C04_grammatical_is_accepted`
     (`a.b[0] || !c[?d == `1`].*  |  f(&g, [h, i]){j: k}`-like token list, positions 0). -/
@@ -188,6 +208,6 @@ example : Sentence Int false
     [tk .uident (b "a"), tk .dot, tk .uident (b "b"), tk .lbracket, tk .number [0x30], tk .rbracket, eofTok 0] :=
   ⟨[tk .uident (b "a"), tk .dot, tk .uident (b "b"), tk .lbracket, tk .number [0x30], tk .rbracket], eofTok 0, rfl, rfl,
     G.index (a := [tk .uident (b "a"), tk .dot, tk .uident (b "b")]) (b := [tk .lbracket, tk .number [0x30], tk .rbracket])
-      (G.sub (a := [tk .uident (b "a")]) (G.ident (Or.inl rfl)) rfl (G.dotIdent (Or.inl rfl))) (G.brNumber rfl rfl rfl)⟩
+      (G.sub (a := [tk .uident (b "a")]) (G.ident (Or.inl rfl)) rfl (G.dotIdent (Or.inl rfl))) (G.brNumber rfl rfl rfl (fun h => by cases h))⟩
 
 end Jmes.Props
